@@ -203,12 +203,16 @@ pub struct FaultyWrite<const CAP: usize> {
     pub wrote_zero: bool,
     /// number of calls that reported `Interrupted`
     pub interrupts: usize,
+    /// when set, `flush` may fail (Interrupted or a hard error), like any std::io::Write
+    pub faulty_flush: bool,
+    pub flush_errors: usize,
+    pub flushed_ok: usize,
 }
 
 #[cfg(kani)]
 impl<const CAP: usize> FaultyWrite<CAP> {
     pub fn new(budget: usize) -> Self {
-        Self { sink: [0; CAP], len: 0, calls: 0, budget, flushes: 0, wrote_zero: false, interrupts: 0 }
+        Self { sink: [0; CAP], len: 0, calls: 0, budget, flushes: 0, wrote_zero: false, interrupts: 0, faulty_flush: false, flush_errors: 0, flushed_ok: 0 }
     }
 }
 
@@ -238,6 +242,18 @@ impl<const CAP: usize> std::io::Write for FaultyWrite<CAP> {
     }
     fn flush(&mut self) -> std::io::Result<()> {
         self.flushes += 1;
+        if self.faulty_flush {
+            let choice: u8 = kani::any();
+            if choice == 0 {
+                self.flush_errors += 1;
+                return Err(std::io::Error::from(std::io::ErrorKind::Interrupted));
+            }
+            if choice == 1 {
+                self.flush_errors += 1;
+                return Err(std::io::Error::from(std::io::ErrorKind::BrokenPipe));
+            }
+        }
+        self.flushed_ok += 1;
         Ok(())
     }
 }
